@@ -16,6 +16,16 @@ What is modelled (the code AS IT IS, defects included):
   (`return ctx.Err()` of the CURRENT context), the deferred `resumeFrame` unwinding on
   every way out (normal, error, Go panic, frame overflow), and `stop`.
 
+* the import cache `vm.modules`: the modules supplied as globals (`mods`, dropped by
+  `resetForNewCode`) and one FILE module `fmod` that the VM's importer loads (`fmod`): its
+  top-level code is executed by `importModule` in a frame of its own when the module is not
+  cached, it calls back into the host, and the invocation may END there (`mfail`: runtime
+  error, Go panic, frame overflow, cancellation of the invocation's own context) - the
+  module is cached only after its code ran to the end (`core`, `modEnd`);
+* `same`: `RunCode` may be handed the very `*compiler.Code` object of an earlier invocation.
+  `resetForNewCode` forgets `loadedCode`, so no transition reads the field
+  (`C07_same_code_irrelevant`); the harness does re-run the same Go object and compares.
+
 A history is a list of invocations; the context of the `k`-th invocation (0-based) has
 id `k` and is created fresh for it.  `pre`/`during` name *earlier* invocations' contexts
 (entries `≥ k` denote nothing and are ignored).
@@ -46,6 +56,9 @@ structure Inv where
   imp : Bool           -- the script executes `import hostmod` (a module supplied as a global) first
   pre : List Nat       -- earlier contexts cancelled (watcher settled) before the invocation starts
   during : List Nat    -- earlier contexts cancelled by the host callback while it runs
+  fimp : Bool := false -- the script then executes `import fmod` (a module the VM's importer loads from a file)
+  mfail : Bool := false -- the ending `beh` happens INSIDE fmod's top-level code (when that code is executed)
+  same : Option Nat := none -- RunCode re-supplies the *compiler.Code object compiled for that earlier invocation
   deriving DecidableEq, Repr, Inhabited
 
 inductive Outcome where
@@ -70,6 +83,7 @@ structure St where
   fp : Nat := 0
   hasCode : Bool := false       -- some code is active (`vm.activeCode != nil`)
   mods : Bool := true           -- the modules supplied as globals are in the import cache `vm.modules`
+  fmod : Bool := false          -- the file module `fmod` is in the import cache `vm.modules` (fully initialised)
   acc : Nat := 0                -- len(acc), the host global
   deriving DecidableEq, Repr, Inhabited
 
@@ -94,7 +108,7 @@ def start (s : St) (k : Nat) (bg : Bool) : St :=
            armed := if bg then s.armed else k :: s.armed }
 
 /-- `resetForNewCode` -/
-def reset (s : St) : St := { s with sp := -1, fp := 0, halt := false, mods := false }
+def reset (s : St) : St := { s with sp := -1, fp := 0, halt := false, mods := false, fmod := false }
 
 /-- result of the leaf when no halt is pending -/
 def behOutcome (b : Beh) (v acc : Nat) : Outcome :=
@@ -147,18 +161,56 @@ def leafOutcome (s : St) (k : Nat) (inv : Inv) : Outcome :=
   if s.halt then (if s.cancelled.contains k then .errCanceled else .okHook)
   else behOutcome inv.beh inv.v s.acc
 
+/-- the invocation cancels its own context (possible only if the context can be cancelled) -/
+def ownCancel (inv : Inv) : Bool := inv.beh == .selfCancel && !inv.bg
+
+/-- `import fmod` executes the module's top-level code: the module is not in `vm.modules`
+    (`importModule` looks there first; the importer returns a new Module object otherwise) -/
+def modRuns (s : St) (inv : Inv) : Bool := inv.fimp && !s.fmod
+
+/-- the invocation ENDS while fmod's top-level code is executing: that code runs, the
+    invocation was told to end there (`mfail`), and its ending is one that ends a run -/
+def modEnds (s : St) (inv : Inv) : Bool :=
+  modRuns s inv && inv.mfail &&
+    (ownCancel inv || inv.beh == .err || inv.beh == .panic || inv.beh == .overflow)
+
+/-- the slot that executing a module's top-level code leaves in the IMPORTING frame
+    (`importModule`'s `resumeFrame` carries the module frame's top of stack down as a "frame
+    result").  The importing function's own return (also the error return since the `fix:`
+    commit in `callFunction`) drops it; an ending that skips that return - a Go panic, or the
+    cut-short "success" - leaves it on the stack. -/
+def modResidue (s : St) (inv : Inv) (o : Outcome) : Int :=
+  if modRuns s inv then
+    (match o with
+     | .okHook => 1 | .errPanic => 1 | .errOverflow => 1 | _ => 0)
+  else 0
+
+/-- the run ends inside the module's top-level code (the module's host callback cancels the
+    invocation's own context, or the module code fails): `importModule` returns before
+    `vm.modules[name] = module`, so NOTHING is cached; its deferred `resumeFrame` restores
+    fp/sp; the appends and the leaf's host callback (hence the `during` cancellations) are
+    never reached -/
+def modEnd (s : St) (k : Nat) (inv : Inv) : St × Outcome :=
+  let s' := if ownCancel inv then cancel s k else s
+  let o := if ownCancel inv then Outcome.errCanceled else behOutcome inv.beh inv.v s.acc
+  ({ s' with sp := s'.sp + spDelta inv.kind inv.pend o }, o)
+
 /-- the body of an invocation between `start`(+reset) and `stop` -/
 def core (s : St) (k : Nat) (inv : Inv) : St × Outcome :=
   if inv.imp ∧ s.mods = false then
-    -- `import hostmod` in the leaf frame: not in vm.modules any more and there is no
-    -- importer: "imports are disabled"; the appends and the host callback are never reached
+    -- `import hostmod` in the leaf frame: not in vm.modules any more and the importer does not
+    -- know it: "imports are disabled" / "module not found"; the appends and the host callback
+    -- are never reached
     ({ s with sp := s.sp + spDelta inv.kind inv.pend .errImport }, .errImport)
+  else if modEnds s inv then modEnd s k inv
   else
-    let base := s.sp
-    let s := leaf s k inv
-    let o := leafOutcome s k inv
-    -- the deferred resumeFrame calls restore fp on every way out; sp as computed by spDelta
-    ({ s with fp := s.fp - (inv.depth + 1), sp := base + spDelta inv.kind inv.pend o }, o)
+    let l := leaf s k inv
+    let o := leafOutcome l k inv
+    -- the deferred resumeFrame calls restore fp on every way out; sp as computed by spDelta;
+    -- a module whose top-level code ran to its end is cached, however the invocation ends later
+    ({ l with fp := l.fp - (inv.depth + 1),
+              sp := s.sp + spDelta inv.kind inv.pend o + modResidue s inv o,
+              fmod := s.fmod || inv.fimp }, o)
 
 /-- one invocation on the (possibly reused) VM -/
 def invoke (s : St) (k : Nat) (inv : Inv) : St × Outcome :=
@@ -174,6 +226,18 @@ def preState (s : St) (k : Nat) (inv : Inv) : St := cancelAll s (earlier k inv.p
 /-- state in which the body of invocation `k` starts -/
 def bodyState (s : St) (k : Nat) (inv : Inv) : St := enter (prep s k inv) k inv
 
+/-- the script reaches its leaf (the appends and the host callback `hook()`) -/
+def leafReached (s : St) (k : Nat) (inv : Inv) : Bool :=
+  !(inv.imp && !(bodyState s k inv).mods) && !modEnds (bodyState s k inv) inv
+
+/-- fmod's top-level code is executed by this invocation (observed: the module's own host
+    callback is called) -/
+def modRan (s : St) (k : Nat) (inv : Inv) : Bool :=
+  !(inv.imp && !(bodyState s k inv).mods) && modRuns (bodyState s k inv) inv
+
+/-- `len(vm.modules)` (observed through the `verif` hook) -/
+def modCount (s : St) : Nat := (if s.mods then 1 else 0) + (if s.fmod then 1 else 0)
+
 /-- frame pointer while the host callback runs (observed through the `verif` hook) -/
 def leafFp (s : St) (k : Nat) (inv : Inv) : Nat := (leaf (bodyState s k inv) k inv).fp
 
@@ -184,9 +248,6 @@ def runFrom (s : St) (k : Nat) : List Inv → List (St × Outcome)
   | inv :: rest => invoke s k inv :: runFrom (invoke s k inv).1 (k + 1) rest
 
 def run (h : List Inv) : List (St × Outcome) := runFrom (fresh 0) 0 h
-
-/-- the invocation cancels its own context (possible only if the context can be cancelled) -/
-def ownCancel (inv : Inv) : Bool := inv.beh == .selfCancel && !inv.bg
 
 /-- **Spec**: what the property demands of invocation `inv` when the host global has the
     value `acc`: the outcome of that invocation alone, on a fresh VM, where nothing that
@@ -208,9 +269,11 @@ def importFails (s : St) (k : Nat) (inv : Inv) : Bool :=
 def fires (s : St) (i : Nat) : Bool := s.armed.contains i && !s.cancelled.contains i
 
 /-- guard of the finding `C07-stale-context-watcher`: a watcher of an EARLIER context fires
-    while invocation `k` executes from state `s` -/
+    while invocation `k` executes from state `s` (the `during` cancellations are made by the
+    leaf's host callback, so the leaf must be reached) -/
 def staleFires (s : St) (k : Nat) (inv : Inv) : Bool :=
-  !importFails s k inv && (earlier k inv.during).any (fires (bodyState s k inv))
+  !importFails s k inv && !modEnds (bodyState s k inv) inv &&
+    (earlier k inv.during).any (fires (bodyState s k inv))
 
 /-- exactly the invocations whose outcome on the reused VM differs from the Spec -/
 def harms (s : St) (k : Nat) (inv : Inv) : Bool :=
